@@ -96,7 +96,7 @@ def do_replay(path):
         return 1 if ok else 0
     b = doc.get('bounded') or {}
     if b.get('found'):
-        bad, w = oblig.run_native(ob, grid, b['sizes'], b['seed'])
+        bad, w = oblig.run_native(ob, grid, b['sizes'], b['seed'], unit_stress=b.get('unit_stress'))
         print('bounded stand-in input: sizes', b['sizes'], 'seed', b['seed'], '-> failing', bad[:5])
         return 1 if bad else 0
     print('no failing input recorded (no-failing-input-found); solver output:', doc.get('solver'))
@@ -232,7 +232,9 @@ def main(argv=None):
             n_confirmed += 1
             continue
         in_base = baseline.get(r['oid'], {}).get('status') == 'proved'
-        if in_base:
+        # a tool limit (the model cannot trace the code as it is now) is not a failed proof: with the bounded stand-in
+        # finding nothing it stays UNDECIDED (exit 2); a failed / unknown PROOF of a baseline obligation is a violation
+        if in_base and r['status'] != 'out-of-reach':
             path = write_replay(prop, r, 'failed-no-input')
             viol.append('VIOLATION property=%s replay=%s obligation %s discharged on the baseline tree and does not now (%s) no-failing-input-found'
                         % (prop, path, r['oid'], r['status']))
@@ -263,7 +265,7 @@ def main(argv=None):
     for line in viol:
         print(line)
     wall = time.time() - t0
-    if canaries == 0 and not a.only and not ((canary_code_errors or canary_out_of_reach) and viol):
+    if canaries == 0 and not a.only and not ((canary_code_errors or canary_out_of_reach) and (viol or undecided)):
         faults.append('no canary was refuted and replayed in this run (vacuity guard)')
         print('CHECKER-FAULT: no canary refuted+replayed')
     if n_obl + len(kf_lines) + len(bounded_runs) == 0:
